@@ -1580,7 +1580,11 @@ def engine_trace(text, queries, schedule=None):
     results = []
     for q in queries:
         log.append({"t": "q", "k": "", "p": q, "a": 0, "node": 0, "last": 0})
-        target = eng.ground(db, Term(q), target, label="query")
+        try:
+            target = eng.ground(db, Term(q), target, label="query")
+        except Exception as e:
+            e.partial_log = log          # the messages popped before the engine raised
+            raise
         key = dict((str(n), k) for n, k in target.queries()).get(q, "absent")
         results.append({"q": q, "key": 1000000 if key is None else (key if key != "absent" else -999)})
     return {"log": log, "results": results, "nodes": _dump_nodes(target), "schedule_used": used, "bad_schedule": bad_schedule}
@@ -1595,6 +1599,6 @@ def engine_traces(cases):
             r["id"] = c["id"]
         except Exception as e:
             from .pl import err_info
-            r = dict(err_info(e), id=c["id"], crash=True)
+            r = dict(err_info(e), id=c["id"], crash=True, log=getattr(e, "partial_log", []))
         out.append(r)
     return {"results": out}
